@@ -184,7 +184,9 @@ func tagged(t reflect.Type, i int) bool {
 
 var byteSliceT = reflect.TypeOf([]byte(nil))
 
-func isBytes(t reflect.Type) bool { return t.Kind() == reflect.Slice && t.Elem().Kind() == reflect.Uint8 }
+func isBytes(t reflect.Type) bool {
+	return t.Kind() == reflect.Slice && t.Elem().Kind() == reflect.Uint8
+}
 
 // fill sets every codec field of the struct v (addressable) to a generated value.
 func (g *valGen) fill(v reflect.Value, depth int) error {
